@@ -983,6 +983,9 @@ impl<'a> Parser<'a> {
       self.call_signature(params, self.vec())?
     };
 
+    // a loop around the lambda is not a loop of the lambda
+    let loop_depth = mem::replace(&mut self.loop_depth, 0);
+
     let previous = mem::replace(&mut self.fun_kind, FunKind::Fun);
     let lambda = self.fun_body(BlockReturn::Can).map(|body| {
       self.atom_expr(Primary::Lambda(self.node(Fun::new(
@@ -994,6 +997,7 @@ impl<'a> Parser<'a> {
     });
 
     self.fun_kind = previous;
+    self.loop_depth = loop_depth;
     lambda
   }
 
